@@ -50,6 +50,9 @@ def pair_specs():
 
 def items(tier):
     its = []
+    for key in ("rate|x**2", "rate|gate", "rate|cos(x)/p", "rate|abs(x)"):
+        its.append({"key": f"api-reuse|{key}", "kind": "api-reuse", "name": key, "spec": dict(models.rate_specs())[key], "tier": tier,
+                    "sample": {"rate": key, "what": "one CodeGenerator instance, scheme() called for every delta / stiff set in sequence"}})
     for key, sp in pair_specs():
         for delta in DELTAS:
             its.append({"key": f"{key}|delta={delta!r}", "kind": "rate", "name": key, "spec": sp, "delta": delta, "tier": tier,
@@ -77,12 +80,46 @@ def grid(ref, delta):
     return pts
 
 
+def run_api_reuse(item, res):
+    """the text a generator instance returns for (scheme, options) must not depend on what it was asked before"""
+    from gotranx.codegen import PythonCodeGenerator, CCodeGenerator, JaxCodeGenerator
+    from gotranx.codegen.python import Format as PF
+    from gotranx.codegen.c import Format as CF
+    from gotranx.schemes import get_scheme
+    key, sp = item["name"], item["spec"]
+    text = models.spec_text(sp)
+    ode = drive.load(text)
+    mk = {"numpy": lambda: PythonCodeGenerator(ode, format=PF.none), "jax": lambda: JaxCodeGenerator(ode, format=PF.none), "c": lambda: CCodeGenerator(ode, format=CF.none)}
+    calls = [("generalized_rush_larsen", {"delta": d}) for d in DELTAS] + [("hybrid_rush_larsen", {"delta": d, "stiff_states": s_}) for d in (1e-8, 0.5) for s_ in (["x"], ["y"], [], ["x", "y"])]
+    calls += [("explicit_euler", {})]
+    for backend, make in mk.items():
+        fresh = {}
+        for i, (sn, kw) in enumerate(calls):
+            fresh[i] = make().scheme(get_scheme(sn), **kw)
+        for order in (list(range(len(calls))), list(reversed(range(len(calls))))):
+            cg = make()
+            for i in order:
+                sn, kw = calls[i]
+                got = cg.scheme(get_scheme(sn), **kw)
+                res["transitions"] += 1
+                res["evaluations"] += 1
+                if got != fresh[i]:
+                    res["failures"].append({"finding": f"{ID}|api-reuse|{backend}|scheme-text-depends-on-earlier-calls", "size": len(text),
+                                            "what": f"{key}: CodeGenerator.scheme({sn}, {kw}) on an instance that generated other schemes before differs from a fresh instance", "detail": {"text": text, "call": [sn, kw]}})
+                    break
+        res["traces"] += 2
+    res["nontrivial"] = 1
+
+
 def run_item(item):
     drive.gx()
     import checks.c03 as c03
     c03._jax_env()
     res = c01.new_res()
     res["states"] = 1
+    if item["kind"] == "api-reuse":
+        run_api_reuse(item, res)
+        return res
     key, sp, delta, tier = item["name"], item["spec"], item["delta"], item.get("tier", "quick")
     text = models.spec_text(sp)
     ref = models.Ref(sp)
